@@ -3,7 +3,7 @@
    notification to the core; "every interleaving" = "every list". *)
 From Coq Require Import ZArith List Bool.
 From Common Require Import Res.
-From Core Require Import World Model Step Reach Rel_History Res_NoRaise Proofs_C02 Proofs_C03b Proofs_C02b.
+From Core Require Import World Model Step Reach Rel_History Res_NoRaise Proofs_C02 Proofs_C03b Proofs_C02b Proofs_C10b Proofs_C02c.
 Import ListNotations.
 Open Scope Z_scope.
 
@@ -48,10 +48,11 @@ Print Assumptions C02_schedule_no_raise.
 (* T5 (agreement clause), PARTIAL: proved for the model for pause, resume and stop (here) and
    for next / previous / natural end of track (Property_C03.v, whose conclusions include the
    audio URI and state), from any state that is settled on a track (no notification pending,
-   no switch or seek under way, audio agreeing), with consume off.  For play from the
-   stopped state, seek, and edits of the tracklist the clause is decided by the settled-run
-   agreement monitor and the correspondence only; seek from stopped and replaying the current
-   track under consume are recorded known findings. *)
+   no switch or seek under way, audio agreeing), with consume off; and for play() from the
+   stopped state (with a current track, and play(tlid) in a process that has not played yet).
+   For play() while playing/paused on another track, seek, and edits of the tracklist the clause
+   is decided by the settled-run agreement monitor and the correspondence only; seek from
+   stopped and replaying the current track under consume are recorded known findings. *)
 Theorem C02_agreement_pause :
   forall shuf f c w, settled_on w c -> pstate w = Playing -> a_fresh w = false ->
   let w' := run_world shuf f w [Pause; Deliver; Deliver] in
@@ -75,3 +76,20 @@ Theorem C02_agreement_stop :
   /\ a_uri w' = None /\ a_state w' = Stopped /\ World.tl w' = World.tl w.
 Proof. exact stop_agreement. Qed.
 Print Assumptions C02_agreement_stop.
+
+Theorem C02_agreement_play_stopped :
+  forall shuf f c w, settled_on w c -> pstate w = Stopped -> consume w = false -> accepts w c ->
+  let w' := run_world shuf (S f) w [Play None; Deliver; Deliver; Deliver; Deliver] in
+  current w' = Some c /\ pstate w' = Playing /\ pending w' = None /\ queue w' = []
+  /\ a_uri w' = Some (trk c) /\ a_state w' = Playing /\ World.tl w' = World.tl w.
+Proof. exact play_stopped_agreement. Qed.
+Print Assumptions C02_agreement_play_stopped.
+
+Theorem C02_agreement_play_fresh :
+  forall shuf f i x w, fresh_stopped w -> start_at_position w = None -> 1 <= i ->
+  find (fun y => tlid y =? i) (World.tl w) = Some x -> accepts w x ->
+  let w' := run_world shuf (S f) w [Play (Some i); Deliver; Deliver; Deliver; Deliver] in
+  option_map tlid (current w') = Some i /\ pstate w' = Playing /\ pending w' = None /\ queue w' = []
+  /\ a_uri w' = Some (trk x) /\ a_state w' = Playing /\ World.tl w' = World.tl w.
+Proof. exact play_fresh_agreement. Qed.
+Print Assumptions C02_agreement_play_fresh.
